@@ -145,18 +145,14 @@ XalanDOMString::resize(
 
     if (theCount != theOldSize)
     {
-        if (theOldSize == 0)
+        // Resize, with room for the terminating null character...
+        m_data.resize(theCount + 1, theChar);
+
+        if (theCount > theOldSize)
         {
-            // If the string is of 0 length, resize but add an
-            // extra byte for the terminating byte.
-            m_data.resize(theCount + 1, theChar);
-        }
-        else
-        {
-            // If the string is not of 0 length, resize but
-            // put a copy of theChar where the terminating
-            // byte used to be.
-            m_data.resize(theCount + 1, theChar);
+            // If the buffer had been allocated, this is where the
+            // terminating null character used to be.
+            m_data[theOldSize] = theChar;
         }
 
         m_size = theCount;
